@@ -3,7 +3,7 @@
 
    One request = one task calling connect() once.  Atomic steps (what runs between two
    suspension points of the real coroutine, with traces=[]):
-     EStart      connect(): _get (idle reuse) | capacity check -> enqueue waiter | placeholder
+     EStart      connect(): capacity; if positive _get (idle reuse); else enqueue waiter; else placeholder
      EResume     a waiter task resumes after `await fut` (woken / cancelled / woken-then-cancelled)
      ECancel     task.cancel() reaches a task suspended on its waiter future
      ECreateOk   _create_connection returned: swap placeholder for the connection (or, closed: close it)
@@ -206,18 +206,36 @@ Fixpoint cancel_all (w : list (task * key * bool)) (p : list (task * pc)) : list
 (* top of the loop in _wait_for_available_connection: a closed connector refuses to queue *)
 Definition refuse_wait (s : state) : bool := wait_checks_closed && closed s.
 
+(* end of a loop iteration in _wait_for_available_connection: a woken waiter that found no slot hands
+   the wake-up on (self._release_waiter()) before it queues again *)
+Definition hand_on (c : cfg) (s : state) (order : list key) : option state :=
+  if requeue_hands_on then release_waiter c s order else Some s.
+
+(* connect() after the fast path: wait (or be refused by a closed connector), or go on *)
+Definition start_tail (c : cfg) (s : state) (t : task) (k : key) : option state :=
+  if connect_must_wait (avail c s k)
+  then (if refuse_wait s then Some (with_pc s t PFailed)
+        else Some (with_pc (with_waiters s (waiters s ++ [(t, k, false)])) t (PWaiting k FPending)))
+  else Some (proceed c s t k).
+
+(* a woken waiter found no slot: hand the wake-up on, then queue again at the front (or be refused) *)
+Definition requeue (c : cfg) (s1 : state) (t : task) (k : key) (order : list key) : option state :=
+  match hand_on c s1 order with
+  | Some s2 =>
+      if refuse_wait s2 then Some (with_pc s2 t PFailed)
+      else Some (with_pc (with_waiters s2 ((t, k, false) :: waiters s2)) t (PWaiting k FPending))
+  | None => None
+  end.
+
 Definition step (c : cfg) (s : state) (e : event) : option state :=
   match e with
   | EStart t k =>
       match get_pc (pcs s) t with
       | PIdle =>
-          match take_idle k (idle s) with
-          | Some _ => Some (proceed c s t k)          (* first _get: no capacity check *)
-          | None =>
-              if connect_must_wait (avail c s k)
-              then (if refuse_wait s then Some (with_pc s t PFailed)
-                    else Some (with_pc (with_waiters s (waiters s ++ [(t, k, false)])) t (PWaiting k FPending)))
-              else Some (proceed c s t k)
+          (* fast path: the first _get runs only while the limits leave room *)
+          match (if connect_fast_path (avail c s k) then take_idle k (idle s) else None) with
+          | Some _ => Some (proceed c s t k)
+          | None => start_tail c s t k
           end
       | _ => None
       end
@@ -226,8 +244,7 @@ Definition step (c : cfg) (s : state) (e : event) : option state :=
       | PWaiting k FWoken =>
           let s1 := with_woken s (filter (fun x => negb (x =? t)) (woken s)) in
           if wait_slot_found (avail c s1 k) then Some (proceed c s1 t k)
-          else if refuse_wait s1 then Some (with_pc s1 t PFailed)
-          else Some (with_pc (with_waiters s1 ((t, k, false) :: waiters s1)) t (PWaiting k FPending))
+          else requeue c s1 t k order
       | PWaiting k FCancelled =>
           Some (with_pc (with_waiters s (filter (fun x => negb (fst (fst x) =? t)) (waiters s))) t PCancelled)
       | PWaiting k FWokenCancel =>
